@@ -1,4 +1,5 @@
 import PsV.Proofs.CApi
+import PsV.Proofs.CApiRefine
 import PsV.Generated.C18
 /-!
 # C18 — the C interface is a faithful, leak-free wrapper
@@ -7,6 +8,17 @@ Property theorems only.  They are statements about `PsV.Generated.C18.wrappers` 
 tables that `tools/gen_c18.py` extracts from the *current* `src/cinter/splinetable.cpp` on every run, and about
 `PsV.CApi.wrapRet` / `PsV.CApi.step`, the definitions the driver executes.  If the source loses a `catch(...)`, drops a
 result, or deletes through the wrong type, the table changes and these proofs stop checking.
+
+Three layers (the later ones were added by the deepening round; nothing earlier was weakened):
+* per call of a wrapper (`C18_no_exception_escapes` … `C18_null_guard_fails`), per *body* of a wrapper
+  (`C18_body_faithful`: any sequence of its calls);
+* per history, ownership only (`C18_handles_balanced`, `C18_ledger_tracks_handles` under the usage rule;
+  `C18_orphans_exact`, `C18_free_twice`, `C18_destroy_twice` in the wider scope of what the C code defines);
+* per history, with the C++ objects: `C18_refines` — the C machine `cstep` (pointers, ledger, return codes from the
+  generated table) against the C++ program `tstep` a caller of the C++ API writes, for *every* wrapper of the table,
+  every semantics of the C++ operations inside the behaviour classes, every history in the defined scope, including
+  allocation failures of the wrappers' own (`oom`) — and what remains undefined (`C18_undefined_on_null_table`,
+  `C18_undefined_without_object`).
 
 Reading guide: `possible op o` — outcome `o ∈ {ok, fail, throws}` can occur for the C++ operation `op`
 (`canThrow`, `canFail` in `Model/CApi.lean`, from the C++ headers); `wrapRet w c o` — what the C caller sees when the
@@ -124,5 +136,254 @@ example : wrapRet w_splinetable_convolve ⟨.convolve, false, .noResult⟩ .thro
 
 /-- `return searchcenters(...)` (before fix C18-4) is non-zero exactly on success -/
 example : wrapRet w_tablesearchcenters ⟨.searchcenters, false, .returned⟩ .ok = .failure := by decide
+
+/-! ## Deepening round -/
+
+/-! ### Whole wrapper bodies -/
+
+theorem C18_table_checked2 : wrappers.all wrapperOk2 = true := by decide
+
+/-- **body_faithful.**  `C18_wrapper_faithful` speaks of one call "all earlier calls having succeeded".  This one
+    speaks of a whole body: for every wrapper of the table and *every* sequence of its calls into the C++ library (any
+    length, any order, any outcomes the behaviour classes allow) that ends in a `return` of the wrapper: the C caller
+    sees exactly what a faithful wrapper shows for the outcome of the C++ side (that of the first call that does not
+    succeed, `ok` if there is none), and no exception leaves. -/
+theorem C18_body_faithful :
+    ∀ w ∈ wrappers, ∀ tr : List (Call × Outcome), (∀ p ∈ tr, p.1 ∈ w.calls ∧ possible p.1.op p.2 = true) →
+      completes w tr = true → execTrace w tr = expected w.ret (traceOutcome tr) ∧ execTrace w tr ≠ .escapes := by
+  intro w hw tr htr hc
+  have h2 := List.all_eq_true.mp C18_table_checked2 w hw
+  simp only [wrapperOk2, Bool.and_eq_true] at h2
+  exact execTrace_sound h2.1.1 h2.1.2 tr htr hc
+
+/-- the body of `splinetable_glamfit`: two helper containers are built, then `fit` throws -/
+example : let w := w_splinetable_glamfit
+    let tr : List (Call × Outcome) := [(⟨.other, true, .stored⟩, .ok), (⟨.other, true, .stored⟩, .ok), (⟨.fit, true, .noResult⟩, .throws)]
+    (∀ p ∈ tr, p.1 ∈ w.calls ∧ possible p.1.op p.2 = true) ∧ completes w tr = true ∧ traceOutcome tr = .throws ∧
+    execTrace w tr = .failure := by decide
+
+/-- The hypothesis `completes` of `C18_body_faithful` holds for every body that gets as far as the wrapper's last call
+    (whatever that call then does): a wrapper whose last statement is not `return 0` ends in a call whose result it
+    returns.  (Bodies that stop earlier stop at a `return`, by the definition of `returnsOn`.) -/
+theorem C18_body_completes :
+    ∀ w ∈ wrappers, ∀ tr : List (Call × Outcome), tr.getLast?.map Prod.fst = w.calls.getLast? → completes w tr = true := by
+  intro w hw tr hl
+  have h2 := List.all_eq_true.mp C18_table_checked2 w hw
+  simp only [wrapperOk2, Bool.and_eq_true] at h2
+  have hne : ∀ w ∈ wrappers, w.calls ≠ [] := by decide
+  exact completes_of_reaches_last h2.2 tr hl (hne w hw)
+
+example : let w := w_splinetable_get_key
+    let tr : List (Call × Outcome) := [(⟨.getAuxValue, true, .returned⟩, .fail)]
+    tr.getLast?.map Prod.fst = w.calls.getLast? ∧ w.finalSucceeds = false ∧ execTrace w tr = .failure := by decide
+
+/-! ### The C machine refines the C++ program -/
+
+theorem C18_life_rets : LifeRetsOk wrappers := by
+  constructor <;> decide
+
+/-- every wrapper of the table is either one of the seven that move pointers (modelled one by one in `cstep`) or a plain
+    member-function wrapper (modelled generically by `CCall.member w`, for any `w` of the table) -/
+theorem C18_every_wrapper_covered :
+    ∀ w ∈ wrappers, lifeNames.contains w.name = true ∨ (principal w 0).isSome = true := by decide
+
+/-- **refines.**  Any object type, argument type and value type; any semantics `sem` of the C++ operations that stays
+    inside the behaviour classes (`Sem.WF`); any number of handles and result slots; any history of calls of the C
+    interface — every wrapper of the generated table, live and NULL handles, NULL arguments, allocation failures inside
+    the C++ operations (part of `sem`) and of the wrappers' own (`oom`) — inside the defined scope `cDefined`.  Then,
+    running the C machine (`cstep`: pointers and ledger driven by the generated `facts`, return codes by the generated
+    `wrappers`) and the C++ program for the same calls (`tstep`):
+    * the handles hold exactly the twin's objects in the twin's states, the result pointers the twin's results, the
+      caller the same number of buffers (`abs`);
+    * call by call the C caller saw `0`/non-NULL/the value iff the C++ operation succeeded, the failure value iff it
+      threw, reported failure or could not be written down, the same value, and no exception left (`agrees`);
+    * nothing was deleted twice or through a wrong type, no handle dangles, and the ledger is the live C++ objects:
+      table objects = the twin's objects, result objects = array sets = the twin's results;
+    * the ownership state is the one `run facts` (the definitions of `C18_handles_balanced`) reaches by a history that
+      obeys the usage rule — so the clean-up of `C18_handles_balanced` empties the ledger (`C18_refines_balanced`). -/
+theorem C18_refines {Obj Arg Val : Type} (sem : Sem Obj Arg Val) (hsem : sem.WF) (nh nr : Nat) (calls : List (CCall Arg))
+    (hd : cDefinedRun facts wrappers sem (CSt.init nh nr) calls = true) :
+    let c := crun facts wrappers sem (CSt.init nh nr) calls
+    let t := trun sem (TSt.init nh nr) calls
+    c.1.abs = t.1 ∧ agreesAll calls c.2 t.2 ∧
+    c.1.ub = false ∧ (∀ h, hptr c.1 h = .null ∨ ∃ x, hptr c.1 h = .live x) ∧
+    c.1.led.tables = t.1.objs.countP Option.isSome ∧ c.1.led.ndObjs = t.1.res.countP Option.isSome ∧
+    c.1.led.ndArrays = t.1.res.countP Option.isSome ∧ c.1.led.buffers = t.1.bufs ∧
+    ∃ ops, validRun facts (St.init nh nr) ops = true ∧ c.1.erase = run facts (St.init nh nr) ops := by
+  intro c t
+  have hinit : (CSt.init nh nr : CSt Obj Val).erase = St.init nh nr := by simp [CSt.init, CSt.erase, St.init, HPtr.st]
+  have habs : (CSt.init nh nr : CSt Obj Val).abs = TSt.init nh nr := by simp [CSt.init, CSt.abs, TSt.init, HPtr.obj?]
+  have hT : ∀ w ∈ wrappers, wrapperOk w = true := List.all_eq_true.mp C18_table_checked
+  obtain ⟨h1, h2, h3, h4⟩ := crun_refines C18_facts_good hT C18_life_rets sem hsem calls (CSt.init nh nr)
+    (by rw [hinit]; exact inv_init nh nr) hd
+  rw [habs] at h1 h2
+  rw [hinit] at h4
+  have ht : t.1 = c.1.abs := h1.symm
+  refine ⟨h1, h2, h3.noub, ?_, ?_, ?_, ?_, ?_, h4⟩
+  · intro h
+    cases hh : hptr c.1 h with
+    | null => exact Or.inl rfl
+    | live x => exact Or.inr ⟨x, rfl⟩
+    | dangling => exact absurd hh (not_dangling h3 h)
+  · rw [ht]; simp only [CSt.abs]; rw [← countP_objs]; exact h3.tables
+  · rw [ht]; simp only [CSt.abs]; rw [← countP_res]; exact h3.ndObjs
+  · rw [ht]; simp only [CSt.abs]; rw [← countP_res]; exact h3.ndArrays
+  · rw [ht]; rfl
+
+/-- … and so the caller's clean-up (`splinetable_free` on every handle, `ndsparse_destroy` on every result pointer,
+    `free` on every buffer) after any such history leaves nothing behind. -/
+theorem C18_refines_balanced {Obj Arg Val : Type} (sem : Sem Obj Arg Val) (hsem : sem.WF) (nh nr : Nat) (calls : List (CCall Arg))
+    (hd : cDefinedRun facts wrappers sem (CSt.init nh nr) calls = true) :
+    let s := (crun facts wrappers sem (CSt.init nh nr) calls).1.erase
+    let t := run facts s (cleanupOps nh nr s.led.buffers)
+    t.led = {} ∧ t.ub = false ∧ (∀ j, hget t j = .null) ∧ (∀ j, rget t j = false) := by
+  obtain ⟨ops, hv, he⟩ := (C18_refines sem hsem nh nr calls hd).2.2.2.2.2.2.2.2
+  simp only [he]
+  exact C18_handles_balanced nh nr ops hv
+
+/-- a semantics inside the behaviour classes and a defined history that uses every kind of call: a table is read from
+    memory into a fresh handle, a key is read (the C++ call reports failure through its result), a guarded wrapper is
+    called on a handle that owns nothing and with a NULL key, a grid evaluation succeeds, an allocation of
+    `splinetable_permute`'s own fails, the file reader replaces the object, everything is released, and released again -/
+def demoSem : Sem Nat Nat Nat :=
+  { empty := 0, load := fun a => if a = 0 then none else some a,
+    member := fun op a x => (if a = 0 then (if canFail op then .fail else if canThrow op then .throws else .ok) else .ok, x + a, 10 * x + a) }
+
+theorem demoSem_wf : demoSem.WF := by
+  intro op a x
+  simp only [demoSem]
+  by_cases ha : a = 0
+  · cases hf : canFail op <;> cases ht : canThrow op <;> simp [ha, possible, hf, ht]
+  · simp [ha, possible]
+
+def demoCalls : List (CCall Nat) :=
+  [.readMem 0 5 false, .member w_splinetable_read_key 0 0 1 false, .member w_splinetable_read_key 0 3 0 false,
+   .member w_splinetable_get_key 1 3 0 false, .nullArg w_splinetable_read_key "key" 0,
+   .grideval false 0 0 2 false, .grideval true 1 1 2 false, .member w_splinetable_permute 0 1 0 true,
+   .member w_splinetable_ndim 0 1 0 false, .readMem 1 0 true, .init 1 true, .init 1 false, .readMem 1 0 false,
+   .readFile 0 7 false, .readFile 1 0 false, .writeMem 0 1 false, .freeBuffer,
+   .destroy 0, .destroy 0, .free 0, .free 0, .free 1]
+
+example : cDefinedRun facts wrappers demoSem (CSt.init 2 2) demoCalls = true := by decide
+example : ((crun facts wrappers demoSem (CSt.init 2 2) demoCalls).2.map (·.ret)) =
+    [.success, .failure, .success, .failure, .failure, .success, .failure, .failure, .value, .failure, .failure, .success, .failure,
+     .success, .failure, .success, .void, .void, .void, .void, .void, .void] := by decide
+
+/-! ### Beyond the usage rule: what the C code defines on handles that are not "valid", and what it does not -/
+
+/-- **orphans_exact.**  `splinetable_init` on a handle that owns an object and `splinetable_grideval` into a result
+    pointer that still holds a result are plain pointer overwrites in C: defined behaviour, but the object that was there
+    can no longer be released.  For every history in that wider scope (`definedRun`): nothing is deleted twice, no
+    handle dangles, and at every moment the ledger is what the handles and result pointers own *plus exactly* the
+    orphans of the history (`orphansOf`: one table object per successful `init` on an owning handle, one result per
+    grid evaluation — successful or not, `*result = NULL` comes first — into an occupied pointer); after the caller's
+    clean-up exactly those orphans are left. -/
+theorem C18_orphans_exact (nh nr : Nat) (ops : List Op) (hv : definedRun facts (St.init nh nr) ops = true) :
+    let s := run facts (St.init nh nr) ops
+    let o := orphansOf facts (St.init nh nr) ops
+    let t := run facts s (cleanupOps nh nr s.led.buffers)
+    (s.ub = false ∧ HState.dangling ∉ s.hs ∧ s.led.tables = s.hs.count .live + o.1 ∧
+     s.led.ndObjs = s.rs.count true + o.2 ∧ s.led.ndArrays = s.rs.count true + o.2) ∧
+    (t.led = { tables := o.1, ndObjs := o.2, ndArrays := o.2, buffers := 0 } ∧ t.ub = false ∧
+     (∀ j, hget t j = .null) ∧ (∀ j, rget t j = false)) := by
+  intro s o t
+  obtain ⟨hi, _, _⟩ := run_invO C18_facts_good ops 0 0 (St.init nh nr) (inv_init nh nr).toO hv
+  simp only [Nat.zero_add] at hi
+  exact ⟨⟨hi.noub, hi.nodangling, hi.tables, hi.ndObjs, hi.ndArrays⟩, balanced_of_goodO C18_facts_good nh nr ops hv⟩
+
+/-- a history outside the usage rule but inside `definedRun`: init twice on the same handle, a failing and a successful
+    grid evaluation into an occupied result pointer -/
+def demoOrphanOps : List Op :=
+  [.init 0 .ok, .init 0 .ok, .grideval 0 0 .ok, .grideval 0 0 .throws, .grideval 0 0 .ok, .grideval 0 0 .ok, .init 0 .throws]
+
+example : definedRun facts (St.init 1 1) demoOrphanOps = true ∧ validRun facts (St.init 1 1) demoOrphanOps = false ∧
+    orphansOf facts (St.init 1 1) demoOrphanOps = (1, 2) := by decide
+example : (run facts (run facts (St.init 1 1) demoOrphanOps) (cleanupOps 1 1 0)).led = { tables := 1, ndObjs := 2, ndArrays := 2 } := by decide
+
+/-- **free_twice.**  `splinetable_free` resets the handle, so a second `splinetable_free` on the same handle is
+    `delete nullptr`: defined, and without effect — in any state a history in the defined scope can reach. -/
+theorem C18_free_twice (nh nr : Nat) (ops : List Op) (hv : definedRun facts (St.init nh nr) ops = true) (h : Nat) :
+    let s := run facts (St.init nh nr) ops
+    step facts (step facts s (.free h)) (.free h) = step facts s (.free h) ∧ (step facts s (.free h)).ub = false := by
+  intro s
+  obtain ⟨hi, _, _⟩ := run_invO C18_facts_good ops 0 0 (St.init nh nr) (inv_init nh nr).toO hv
+  obtain ⟨h1, _, _, _, h5, _⟩ := freeStep_invO C18_facts_good hi h
+  refine ⟨?_, h1.noub⟩
+  simp only [step]
+  generalize freeStep facts s h = s1 at h5
+  simp only [freeStep, h5]
+
+/-- **destroy_twice.**  `ndsparse_destroy` on a result pointer the caller has reset (or that `splinetable_grideval` set
+    to NULL on failure) is `delete nullptr`: the second release through the same *variable* is without effect.
+    (A second `ndsparse_destroy` through a stale copy of the pointer is a double delete and stays undefined.) -/
+theorem C18_destroy_twice (s : St) (slot : Nat) :
+    step facts (step facts s (.destroy slot)) (.destroy slot) = step facts s (.destroy slot) := by
+  simp only [step]
+  cases hr : rget s slot with
+  | false => simp only [Bool.false_eq_true, if_false, hr]
+  | true =>
+    simp only [if_true]
+    rw [if_neg]
+    simp only [rget, getD_set_self_false, Bool.false_eq_true, not_false_eq_true]
+
+/-- **NULL `table`.**  The wrappers that test their `table` argument — they return the failure value (void: return)
+    before touching anything (`C18_null_guard_fails`, `cstep (.nullArg ..)`, `cstep (.grideval true ..)`) … -/
+theorem C18_null_table_guarded :
+    (wrappers.filter (·.nullChecked.contains "table")).map (·.name) =
+    ["splinetable_init", "splinetable_free", "readsplinefitstable", "writesplinefitstable", "splinetable_get_key",
+     "splinetable_read_key", "splinetable_write_key", "splinetable_convolve", "readsplinefitstable_mem",
+     "writesplinefitstable_mem", "splinetable_glamfit", "splinetable_grideval"] := by decide
+
+/-- … and the calls that remain **undefined** with `table == NULL`: every wrapper that dereferences `table` without a
+    test (the value wrappers, evaluation, `splinetable_permute`; `ndsparse_destroy` has no table argument). -/
+theorem C18_undefined_on_null_table :
+    (wrappers.filter (fun w => w.derefsData && !w.nullChecked.contains "table")).map (·.name) =
+    ["splinetable_ndim", "splinetable_order", "splinetable_nknots", "splinetable_knots", "splinetable_knot",
+     "splinetable_lower_extent", "splinetable_upper_extent", "splinetable_period", "splinetable_ncoeffs",
+     "splinetable_total_ncoeffs", "splinetable_stride", "splinetable_coefficients", "tablesearchcenters", "ndsplineeval",
+     "ndsplineeval_gradient", "ndsplineeval_deriv", "splinetable_permute"] := by decide
+
+/-- **NULL `table->data`** (a handle that owns nothing).  Defined: the wrappers that test it (failure value, no effect:
+    `cstep (.member ..)` on a NULL handle), `splinetable_free` (`delete nullptr`), `splinetable_init`,
+    `readsplinefitstable`, `readsplinefitstable_mem` (they create the object).  **Undefined** — the wrapper forms
+    `*static_cast<…*>(table->data)` without a test: the list below (on top of it, with an object *without data* behind
+    the handle the C++ operations behind the per-dimension getters and the evaluation functions are themselves
+    undefined; that is a matter of the C++ class, not of the wrapper). -/
+theorem C18_undefined_without_object :
+    (wrappers.filter (fun w => w.derefsData && !w.nullChecked.contains "table->data" &&
+        !["splinetable_free", "readsplinefitstable_mem"].contains w.name)).map (·.name) =
+    ["writesplinefitstable", "splinetable_ndim", "splinetable_order", "splinetable_nknots", "splinetable_knots", "splinetable_knot",
+     "splinetable_lower_extent", "splinetable_upper_extent", "splinetable_period", "splinetable_ncoeffs",
+     "splinetable_total_ncoeffs", "splinetable_stride", "splinetable_coefficients", "tablesearchcenters", "ndsplineeval",
+     "ndsplineeval_gradient", "ndsplineeval_deriv", "writesplinefitstable_mem", "splinetable_permute"] := by decide
+
+/-! ### std::bad_alloc -/
+
+/-- **bad_alloc.**  Every wrapper that makes a call which can throw — so every wrapper that can request heap storage at
+    all, its own `new`, helper containers and temporaries included (`Wrapper.mayThrow`) — answers the failure of its
+    first such request with the failure value (void wrappers: return normally), and the exception does not leave.
+    (The effect on handles and ledger is part of `C18_refines`: the `oom` flag of the calls.) -/
+theorem C18_bad_alloc_contained :
+    ∀ w ∈ wrappers, w.mayThrow = true → oomRet w = expected w.ret .throws ∧ oomRet w ≠ .escapes := by
+  intro w hw hm
+  exact oomRet_sound (List.all_eq_true.mp C18_table_checked w hw) hm
+
+example : w_splinetable_permute ∈ wrappers ∧ w_splinetable_permute.mayThrow = true ∧ w_ndsplineeval_gradient.mayThrow = true := by decide
+
+/-- The other wrappers make no call that can throw; the model classifies the operations behind them as allocation-free
+    (`canThrow = false`), and the harness counts the `operator new` requests of every call of these to be 0. -/
+theorem C18_allocation_free_wrappers :
+    (wrappers.filter (fun w => !w.mayThrow)).map (·.name) =
+    ["splinetable_free", "splinetable_get_key", "splinetable_ndim", "splinetable_order", "splinetable_nknots", "splinetable_knots",
+     "splinetable_knot", "splinetable_lower_extent", "splinetable_upper_extent", "splinetable_period", "splinetable_ncoeffs",
+     "splinetable_total_ncoeffs", "splinetable_stride", "splinetable_coefficients", "tablesearchcenters", "ndsplineeval",
+     "ndsplineeval_deriv", "ndsparse_destroy"] := by decide
+
+/-- `readsplinefitstable_mem` on a handle that owns nothing when `new splinetable<>()` throws: nothing is created, the
+    handle stays NULL (the other failure, `read_fits_mem` throwing, leaves an empty object behind the handle) -/
+example : (cstep facts wrappers demoSem (CSt.init 1 0) (.readMem 0 0 true)).1.abs.objs = [none] ∧
+    (cstep facts wrappers demoSem (CSt.init 1 0) (.readMem 0 0 false)).1.abs.objs = [some 0] ∧
+    (cstep facts wrappers demoSem (CSt.init 1 0) (.readMem 0 0 true)).2.ret = .failure ∧
+    (cstep facts wrappers demoSem (CSt.init 1 0) (.readMem 0 0 false)).2.ret = .failure := by decide
 
 end PsV
